@@ -72,7 +72,7 @@ func c01Decode(h, maxLen int) []int {
 
 func c01Tier(tier string) (maxLen, exh, random int) {
 	if tier == "thorough" {
-		return 4, c01ExhCount(4) * 4, 2000000
+		return 4, c01ExhCount(4) * 4, 10000000
 	}
 	return 3, c01ExhCount(3) * 4, 200000
 }
